@@ -6,7 +6,7 @@ PROP = {
     "allowed_axioms": [],
     "harness": "c06",
     "modelrun": {"name": "c06", "extracted": ["c05_model"], "driver": "ocaml/c05/c05_run.ml"},
-    "tiers": {"quick": {"cases": 6000}, "thorough": {"cases": 100000}},
+    "tiers": {"quick": {"cases": 6000}, "thorough": {"cases": 200000}},
     "search_cases": 30000,
     "rule": "histories of 4-28 operations on one Adj-RIB-In with two recording Loc-RIB clients; more than half of the "
             "announcements are ineligible (own ASN anywhere in the AS_PATH, router id as ORIGINATOR_ID, contributing "
